@@ -156,6 +156,14 @@ def read_part(ctx):
         for d in small:
             for enc_ in ("utf-8", "utf-16", "utf-16-le", "utf-16-be", "utf-32", "latin-1"):
                 cases.append((d, enc_, 0))
+        # file heads that tools in front of a converter treat specially (front matter, shebang, comment / metadata headers, control characters):
+        # to read() they are Markdown like everything else, whatever the line ends
+        heads = ["---\nkey: v\n---\n\nbody\n", "---\ntitle: Home page\nauthor: me\n---\n# h\n", "---\nkey: v\n...\ntext\n", "---\nkey: v\n---", "+++\ntitle = 1\n+++\n\ntext\n", "---\n---\ntext\n",
+                 "#!/usr/bin/env markdown\ntext\n", "% title\n% author\n\nbody\n", "Title: x\nDate: y\n\nbody\n", "<!-- header -->\ntext\n", "\x0c\npage\n", "a\x00b\n", "text\x1a\n", "\n\n  lead\n", "[//]: # (c)\ntext\n"]
+        for d in heads + [gen.md_any(ctx.rng, 6) for _ in range(40 if ctx.quick() else 1500)]:
+            d = d.replace("\r", "")
+            if d:
+                cases.append((d, "utf-8", 0))
         line = "abcdefghijkl"          # 12 characters + line end
         big = ("# heading\n\n" + (line + "\n") * 5200 + "\nend\n")      # > 64 KiB with CRLF
         for pad in range(0, 15):
